@@ -503,6 +503,12 @@ class Interp:
             if kind == "raise":
                 raise _Raise(val)
             return val
+        if callee is not None and callable(callee) and not isinstance(callee, ast.AST) and all(_concrete(a) for a in args) and all(_concrete(v) for v in kws.values()):
+            # a trusted model of a library function, supplied by the rule (documented behaviour, listed in the evidence)
+            try:
+                return callee(*args, **kws)
+            except Exception as exc:
+                raise _Raise(type(exc).__name__)
         f = _PURE.get(fn)
         if f is not None and all(_concrete(a) for a in args) and all(_concrete(v) for v in kws.values()):
             try:
